@@ -14,6 +14,8 @@ import Generated.Tables
 * `epytext doctestbody <u:s> (<start> <srcEnd> <stop> <0|1> <matches>)*` → pieces | `AssertionError`
 * `epytext plaintext <u:s>` → `<u:child>`
 * `epytext field <tag> <fn> <kind> <hasArg> <paramExists> <attrKnown>` → `heading=… attr=0|shown|hidden reported=… modelled=…`
+* `epytext heading <u:contents[0]> [<u:contents[1]>]` → `heading <level>` | `typo` | `para`   (`_tokenize_para`)
+* `epytext pair (d<n>|t<n>)*` → `absent` | `body=… type=…`   (return/rtype, yield/ytype handlers in source order)
 * `epytext spaces` → code points below 0x3100 for which `pyIsSpace`
 `wordExtra` lists the non-ASCII characters of the text that Python's `\w` accepts. -/
 namespace Epytext
@@ -117,9 +119,25 @@ def showOutcome (o : Outcome) : String :=
   " reported=" ++ (if o.reported then "1" else "0") ++
   " modelled=" ++ (if o.modelled then "1" else "0")
 
+def parseEvent (tok : String) : Option PairEvent :=
+  if tok.startsWith "d" then ((tok.drop 1).toString.toNat?).map PairEvent.desc
+  else if tok.startsWith "t" then ((tok.drop 1).toString.toNat?).map PairEvent.type
+  else none
+
+def showPair : Option PairDesc → String
+  | none => "absent"
+  | some d => "body=" ++ (match d.body with | some n => toString n | none => "-") ++
+              " type=" ++ (match d.type with | some n => toString n | none => "-")
+
 end Fields
 
 namespace Epytext
+
+def showHead : HeadOutcome → String
+  | .heading l => "heading " ++ toString l
+  | .typo => "typo"
+  | .para => "para"
+  | .indexError => "IndexError"
 
 def handle (args : List String) : String :=
   match args with
@@ -177,6 +195,18 @@ def handle (args : List String) : String :=
   | ["field", tag, fn, kind, hasArg, ex, known] =>
     match Fields.parseKind kind with
     | some k => Fields.showOutcome (Fields.outcome tag fn k ⟨hasArg == "1", ex == "1", known == "1"⟩)
+    | none => "bad-op"
+  | ["heading", a] =>
+    match Proto.decodeStr a with
+    | some c0 => showHead (headingOf c0 none)
+    | none => "bad-op"
+  | ["heading", a, b] =>
+    match Proto.decodeStr a, Proto.decodeStr b with
+    | some c0, some c1 => showHead (headingOf c0 (some c1))
+    | _, _ => "bad-op"
+  | "pair" :: evs =>
+    match evs.mapM Fields.parseEvent with
+    | some es => Fields.showPair (Fields.runPair none es)
     | none => "bad-op"
   | ["spaces"] =>
     Proto.showNatList ((List.range 0x3100).filter fun n => pyIsSpace (Char.ofNat n))
